@@ -59,13 +59,10 @@ Section O15.
     && selection_ok (c_in c) (c_obs c) && parallel_ok c.
 End O15.
 
-(* known findings, recognised on the input: the violation disappears in the model with every proposed
-   repair applied, and the tag names the first listed defect whose repair alone changes the behaviour of the
-   model on this input.
-     1 F3  dry-run copy raises TypeError          2 F4  dry-run copytree creates the directory skeleton
-     3 F16 dry run writes nested document keys    4 F5  deep not forwarded by sync_projects
-     5     exclude ignored by copytree / clone    6     dry run into an uninitialised destination job
-     8     (deep) dircmp ignores DEFAULT_IGNORES  9     (deep) un-anchored implicit exclude patterns *)
+(* open known findings, recognised on the input (tags keep their numbers; 1-4, 6, 8, 9 are repaired):
+     5     exclude patterns are ignored inside copytree (cloned jobs, left-only directories): the violation
+           disappears in the model with every proposed repair applied (cfg_fixed) and repairing fix_excl alone
+           changes the behaviour of the model on this input (SyncObs.active) *)
 (*   7     thread pool: one ByKey instance (one skipped_keys set) is shared by all worker threads — a document
            conflict in one job makes the conflict-free merge of another job raise; its roll-back goes through the
            un-gated proxy.clear() when the destination document was empty, which writes even in a dry run.
@@ -81,7 +78,7 @@ Definition spurious_possible (fr : fl -> str) (i : sinput) : bool :=
 Definition known_tag_C15 (c : case_sync) : N :=
   if negb (holds_C15 (cs_frepr c) (cs_case c))
      && holds_C15 (cs_frepr c) (model_case (cs_frepr c) cfg_fixed (c_in (cs_case c)))
-  then let t := first_active (cs_frepr c) [1; 2; 3; 4; 5; 6; 8; 9]%N (c_in (cs_case c)) in
+  then let t := first_active (cs_frepr c) [5]%N (c_in (cs_case c)) in
        if negb (N.eqb t 0) then t
        else if negb (fix_shared cfg_current) && spurious_possible (cs_frepr c) (c_in (cs_case c)) then 7%N else 0%N
   else 0%N.
